@@ -45,10 +45,10 @@ start = s.index("## 13. Seeded changes and which checks catch them")
 end = s.index("## Appendix A")
 intro = '''## 13. Seeded changes and which checks catch them
 
-Nine rounds of independent sub-agents (one per claimed property and round)
+Ten rounds of independent sub-agents (one per claimed property and round)
 were given only the text of one property and a private scratch worktree, and
 asked for two changes each that break the property, keep the pinned suite green
-and need something specific to manifest; rounds two to nine were steered
+and need something specific to manifest; rounds two to ten were steered
 towards state left by earlier calls, failures at interior points, unspecified
 behaviour of dependencies and cooperating edits, and were told which ideas were
 already taken (variants A/B = round 1, C/D = round 2, E/F = round 3,
@@ -60,7 +60,7 @@ same objects, unusual argument types, interacting keywords and resources;
 O/P = round 8, pointed at numerical edge semantics, inner-axis shapes, text
 format interplay and ordering of validation and side effects; Q/R = round 9,
 asked to find clauses and parts of the quantified domain no earlier idea had
-touched). Every change was confirmed by
+touched; S/T = round 10, the same with a time limit). Every change was confirmed by
 `tools/confirm_seeds.sh` in a scratch worktree (patch applies; no newly
 failing test; the agent's demo fails with the change and passes without) before
 it was filed under `/verif/seeded/<id>/` (`patch.diff`, `demo.py`, `notes.md`
@@ -194,6 +194,15 @@ C17-Q/R to `copyto` with a declared output and to bool data for the functions
 that only ask "is it zero"; C20-Q/R to arrays in the pickle stage, built from
 attributes or composed from scalar polynomials stored in opposite term order;
 C15-Q to joining monomials of one pattern over different names.
+Round ten (9 of 22 missed at first): C13-S/T to a file with a numpoly header
+never loading as plain numbers and to 210-term polynomials (a header line beyond
+a kilobyte) - the second also exposed that the simulated streams ignored the
+size argument of `readline`, a seam defect that was corrected; C11-S to
+`outer` of operands that are not 1-d; C17-S to negative int64 bound arrays
+handed to the index utilities; C15-S/T to a zero entry of a wider type in a
+dictionary and to the monomial basis built with its defaults; C20-T to
+exponent matrices in the smallest unsigned type; C12-S/T were caught without
+changes.
 
 '''
 s = s[:start] + intro + table + "\n\n---------------------------------------------------------------------------\n\n" + s[end:]
